@@ -1546,12 +1546,12 @@ def _is_vectors(fo):
 
 def _ref_line(sc):
     ctx = sc.get("context", "").encode("utf-8").hex() or "-"
-    return "%s %s %s %d %d %d" % (sc["mode"], sc.get("key_hex") or "-", ctx, sc["input_len"], sc["out_len"],
-                                  sc.get("split", 0))
+    return "%s %s %s %d %d %d%s" % (sc["mode"], sc.get("key_hex") or "-", ctx, sc["input_len"], sc["out_len"],
+                                    sc.get("split", 0), (" %d" % sc["extra"]) if sc.get("extra") else "")
 
 
 def _ref_expected(sc):
-    data = gen_input({"pattern": "inc251", "len": sc["input_len"]})
+    data = gen_input({"pattern": "inc251", "len": sc["input_len"] + (700 if sc.get("extra") == 2 else 0)})
     key = bytes.fromhex(sc["key_hex"]) if sc.get("key_hex") else None
     return b3spec.blake3(data, _RMODE[sc["mode"]], key=key, context=sc.get("context", ""), out_len=sc["out_len"]).hex()
 
@@ -1576,6 +1576,11 @@ def _ref_cases(rng):
                 # the first witness of a tree/chunk defect is about the input and not about the context
                 sc["context"] = CONTEXTS[mi % len(CONTEXTS)] if n in (65, 1025, 5121) else CTX_TV
             out.append(sc)
+            if sp in (0, 1024, 65) and n in (0, 1, 64, 1024, 1025, 2048, 2049, 3072, 5121, 8192):
+                # the same with a zero-length update and a throw-away finalize before the real one (extra 1), and
+                # with more input after that finalize (extra 2)
+                out.append(dict(sc, extra=1))
+                out.append(dict(sc, extra=2))
     return out
 
 
